@@ -229,6 +229,9 @@ def run(ctx):
     ctx.counted('pathlib views', evals, len(nontriv), [{'pattern': '**/*.txt'}, {'pattern': ['*', '*/']}])
     from props import fringe
     fringe.empty_pattern(ctx)
+    from props import glue
+    glue.realpath_follows_fs(ctx)
+    glue.pathlib_exclude(ctx)
     return ctx.finish(RULE)
 
 
